@@ -834,7 +834,7 @@ Section MRProofs.
     destruct (mr_mul_ok (mr_inv k M b) a Ci Ha) as [C1 V1]. destruct (mr_mul_ok a (mr_inv k M b) Ha Ci) as [C2 V2].
     pose proof (mr_V_can a Ha) as Cva. unfold canon in Cva.
     split; (split; [assumption|]).
-    - rewrite V1. rewrite Z.mul_mod_idemp_l by lia. replace (V (mr_inv k M b) * V a * V b) with (V a * (V (mr_inv k M b) * V b)) by ring.
+    - rewrite V2. rewrite Z.mul_mod_idemp_l by lia. replace (V a * V (mr_inv k M b) * V b) with (V a * (V (mr_inv k M b) * V b)) by ring.
       rewrite <- Z.mul_mod_idemp_r by lia. rewrite Ei, Z.mul_1_r. apply Z.mod_small. exact Cva.
     - rewrite V2. rewrite Z.mul_mod_idemp_l by lia. replace (V a * V (mr_inv k M b) * V b) with (V a * (V (mr_inv k M b) * V b)) by ring.
       rewrite <- Z.mul_mod_idemp_r by lia. rewrite Ei, Z.mul_1_r. apply Z.mod_small. exact Cva.
@@ -855,7 +855,7 @@ Section MRProofs.
     destruct (mr_sub_ok _ _ Hc Cm) as [C5 V5]. destruct (mr_subin_ok _ _ Hc Cm) as [C6 V6].
     split. { split; [exact C1|]. rewrite V1, Vm. apply Z.add_mod_idemp_l. lia. }
     split. { split; [exact C2|]. rewrite V2, Vm. apply Z.add_mod_idemp_r. lia. }
-    split. { split; [exact C3|]. rewrite V3, Vm. apply Zminus_mod_idemp_l. }
+    split. { split; [exact C4|]. rewrite V4, Vm. apply Zminus_mod_idemp_l. }
     split. { split; [exact C4|]. rewrite V4, Vm. apply Zminus_mod_idemp_l. }
     split. { split; [exact C5|]. rewrite V5, Vm. apply Zminus_mod_idemp_r. }
     split; [exact C6|]. rewrite V6, Vm. apply Zminus_mod_idemp_r.
